@@ -64,7 +64,9 @@ def strat_case(draw, tier):
         pos = draw(st.integers(0, n - 1))
     return {"n": n, "kind": kind, "nbins_max": nbins_max, "spacing": spacing, "pulse": pulse, "pos": pos, "w": w,
             "amp": draw(st.sampled_from([3.0, 8.0, 20.0])), "seed": draw(st.integers(0, 2**31 - 1)),
-            "a": draw(st.sampled_from([1e-2, 0.5, 3.0, 100.0, 1.0, 7.25])), "b_sig": draw(st.floats(-100, 100, allow_nan=False))}
+            "a": draw(st.sampled_from([1e-2, 0.5, 3.0, 100.0, 1.0, 7.25])), "b_sig": draw(st.floats(-100, 100, allow_nan=False)),
+            "loc": draw(st.sampled_from(["median", "median", "mean"])),
+            "scale": draw(st.sampled_from(["iqr", "iqr", "mad", "std", "biweight", "gapper"]))}
 
 
 def make_data(case):
@@ -107,7 +109,8 @@ def check_responses(case, ctx):
     n = case["n"]
     ctxt = {k: case[k] for k in ("n", "kind", "nbins_max", "spacing", "pulse", "pos", "w", "seed")}
     try:
-        mf = MatchedFilter(x, temp_kind=case["kind"], nbins_max=case["nbins_max"], spacing_factor=case["spacing"])
+        mf = MatchedFilter(x, loc_method=case.get("loc", "median"), scale_method=case.get("scale", "iqr"),
+                           temp_kind=case["kind"], nbins_max=case["nbins_max"], spacing_factor=case["spacing"])
     except Exception as exc:  # noqa: BLE001
         raise Violation(f"mf:raised:{type(exc).__name__}", f"{ctxt}: {exc!r}") from exc
     z = np.asarray(mf.zscores.data)
@@ -148,7 +151,8 @@ def check_affine(case, ctx):
     sig = float(np.std(x.astype(np.float64)))
     b = case["b_sig"] * a * sig
     y = (np.float64(a) * x.astype(np.float64) + b).astype(np.float32)
-    kw = {"temp_kind": case["kind"], "nbins_max": case["nbins_max"], "spacing_factor": case["spacing"]}
+    kw = {"temp_kind": case["kind"], "nbins_max": case["nbins_max"], "spacing_factor": case["spacing"],
+          "loc_method": case.get("loc", "median"), "scale_method": case.get("scale", "iqr")}
     try:
         m0 = MatchedFilter(x, **kw)
         m1 = MatchedFilter(y, **kw)
